@@ -18,6 +18,7 @@ IsEvent(e) == l <= Len(TLog) /\ Ev.e = e /\ l' = l + 1 /\ UNCHANGED tid
 
 TraceNext ==
   \/ IsEvent("send") /\ (Send(Ev.o) \/ XPost(Ev.o))
+  \/ IsEvent("csend") /\ XCancelPost(Ev.o)
   \/ IsEvent("sleep") /\ ~Ev.nan /\ SleepObs(Ev.dlo, Ev.dhi)
   \/ IsEvent("ext") /\ XExt(Ev.x)
   \/ IsEvent("end") /\ End /\ result = Ev.r
